@@ -28,6 +28,11 @@ def main():
     try:
         r = subprocess.run(["git", "-C", wt, "apply", patch], capture_output=True, text=True)
         if r.returncode != 0:
+            # the tree has moved on since the change was written (hooks, repairs): three-way merge
+            r = subprocess.run(["git", "-C", wt, "apply", "-3", patch], capture_output=True, text=True)
+            if r.returncode == 0:
+                subprocess.run(["git", "-C", wt, "reset", "-q"], capture_output=True, text=True)
+        if r.returncode != 0:
             print("PATCH DOES NOT APPLY:", r.stderr.strip())
             return 3
         build = os.path.join(VERIF, ".build-" + hashlib.md5(wt.encode()).hexdigest()[:8])
